@@ -230,7 +230,35 @@ pub fn phase_reload(e: &E2e, keep: &[u8], remove: u8, add: u8, next_seq: u32) ->
     e.sighup();
     let ok = e.wait_until(Duration::from_secs(14), |lg| lg.order.iter().any(|o| o.1 == remove && o.3 == 4 && o.4 >= t_back));
     vensure!(ok, "e2e-new-address-not-added", "real event loop: a third reload restored the start-up list; address {remove} (dropped by the second reload) did not register again within 14 s");
-    phase_uplink(e, next_seq + 1000, 200, 300)
+    phase_uplink(e, next_seq + 1000, 200, 300)?;
+    // 4. two reloads in quick succession (150 ms apart, normally inside one housekeeping interval): the list that
+    // counts is the one written last. Both rounds are built so that `remove` is listed in the last file and not in
+    // the one before it: whether the two are applied in one go or one after the other, `remove` must be alive afterwards.
+    let mut both: Vec<u8> = back.clone();
+    both.push(add);
+    let mut only_add: Vec<u8> = keep.to_vec();
+    only_add.push(add);
+    for (round, (first, last)) in [(only_add.clone(), both.clone()), (keep.to_vec(), back.clone())].into_iter().enumerate() {
+        e.write_ips(&first);
+        e.sighup();
+        std::thread::sleep(Duration::from_millis(150));
+        e.write_ips(&last);
+        let t2 = e.ms();
+        e.sighup();
+        let ok = e.wait_until(Duration::from_secs(16), |lg| lg.keepalives.iter().any(|k| k.0 == remove && k.1 > t2 + 6000));
+        vensure!(
+            ok,
+            "e2e-last-reload-not-applied",
+            "real event loop: two reloads 150 ms apart (round {round}): the file written last lists address {remove}, the one before it does not; 6..16 s later address {remove} sends nothing - the earlier list was applied and the later one lost"
+        );
+        let want_add = last.contains(&add);
+        let t3 = e.ms();
+        std::thread::sleep(Duration::from_millis(2600));
+        let lg = e.log.lock().unwrap();
+        let add_alive = lg.keepalives.iter().any(|k| k.0 == add && k.1 > t3);
+        vensure!(add_alive == want_add, "e2e-last-reload-not-applied", "real event loop: two reloads 150 ms apart (round {round}): address {add} is {} in the file written last but {} afterwards", if want_add { "listed" } else { "not listed" }, if add_alive { "still sends keepalives" } else { "sends nothing" });
+    }
+    Ok(())
 }
 
 /// C19: a reload requested while the start-up probe round is still open (one address does not answer its probe)
